@@ -119,6 +119,7 @@ class LockStep(Model):
             if self.ref.edges.get(self.ref.edge_key(G, a, b)) is None:     # no multigraphs: offered for unlinked pairs
                 ev.append(('add_link', a, b, 'has', 'n'))
                 ev.append(('add_link', a, b, 'connects', 'p'))
+                ev.append(('add_link', a, b, 'connects', 'k'))     # a property bag that names another kind for the link
         for i in ('a', 'b'):
             ev += [('upd', i, 'P', '1'), ('upd', i, 'P', '2'), ('upd', i, 'Class', 'Link'), ('upd', i, 'Name', 'm')]
             for p in ('P', 'Q', 'Name', 'Type', 'Class', 'NodeID', 'GraphID'):
@@ -182,7 +183,8 @@ class LockStep(Model):
         if k == 'delete_node':
             return g.delete_node(node_id=ev[1])
         if k == 'add_link':
-            return g.add_link(node_a=ev[1], rel=ev[3], node_b=ev[2], props={'L': '1'} if ev[4] == 'p' else None)
+            props = {'p': {'L': '1'}, 'k': {'L': '1', 'Class': 'has'}, 'n': None}[ev[4]]
+            return g.add_link(node_a=ev[1], rel=ev[3], node_b=ev[2], props=props)
         if k == 'upd':
             return g.update_node_property(node_id=ev[1], prop_name=ev[2], prop_val=ev[3])
         if k == 'unset':
@@ -211,7 +213,7 @@ class LockStep(Model):
         if k == 'delete_node':
             return r.delete_node(gid, ev[1])
         if k == 'add_link':
-            return r.add_link(gid, ev[1], ev[3], ev[2], {'L': '1'} if ev[4] == 'p' else None)
+            return r.add_link(gid, ev[1], ev[3], ev[2], {'L': '1'} if ev[4] in ('p', 'k') else None)
         if k == 'upd':
             return r.update_node_property(gid, ev[1], ev[2], ev[3])
         if k == 'unset':
@@ -245,6 +247,8 @@ class LockStep(Model):
         first = out[self.flavours()[0]][0]
         if first == 'raise' and ((ev[0] == 'merge' and ev[2] in EITHER_POLICIES) or (ev[0] == 'add_node' and ev[3] in CONTRARY)):
             out['model'] = ('raise',)        # refusing is allowed; the state oracle then demands that nothing changed
+        elif ev[0] == 'add_link' and ev[4] == 'k' and first == 'raise':
+            out['model'] = ('raise',)        # the kind comes from the argument: a contradicting bag is refused, or overruled
         elif ev[0] in ('upd', 'upds') and 'NodeID' in str(ev[2]):
             out['model'] = ('raise',)        # only offered when the id is taken (or the value is None)
         elif (ev[0] == 'upd' and ev[2] == 'GraphID') or (ev[0] == 'upds' and 'None' in str(ev[2])) or \
